@@ -5,10 +5,10 @@ From Coq Require Import Lia.
 From MWF Require Import Base.Util Base.UtilLemmas Exec.ExecBase Exec.ExecGen Exec.ExecRun Exec.ExecTrace
   Exec.ExecGraph Exec.ExecInv Exec.ExecVerdict.
 
-Arguments bfs_subtree : simpl never.
-Arguments submit_attempts : simpl never.
-Arguments mark_failed_list : simpl never.
-Arguments mark_cancelled_list : simpl never.
+#[local] Arguments bfs_subtree : simpl never.
+#[local] Arguments submit_attempts : simpl never.
+#[local] Arguments mark_failed_list : simpl never.
+#[local] Arguments mark_cancelled_list : simpl never.
 
 (** * Part A: frame facts of the opaque combinators *)
 
@@ -32,7 +32,7 @@ Proof.
   unfold getrec, rec_inc_restarts. cbn.
   destruct (Nat.eq_dec x y) as [->|Hn]; [|rewrite nth_upd_neq; auto].
   destruct (Nat.lt_ge_cases y (length (recs s))) as [Hl|Hl].
-  - rewrite nth_upd_eq; auto.
+  - rewrite nth_upd_eq; auto. cbn. lia.
   - rewrite nth_upd_ge; auto.
 Qed.
 
@@ -54,7 +54,7 @@ Record same_view (s s' : st) : Prop := {
 Lemma same_view_refl s : same_view s s.
 Proof. constructor; auto. Qed.
 Lemma same_view_trans a b d : same_view a b -> same_view b d -> same_view a d.
-Proof. intros [] []. constructor; try congruence. intros y. congruence. Qed.
+Proof. intros [] []. constructor; first [congruence | intros y; congruence]. Qed.
 
 Lemma sv_set_status x v s : same_view s (rec_set_status x v s).
 Proof. constructor; auto. intros y. apply restarts_set_status. Qed.
@@ -113,7 +113,8 @@ Proof.
   - specialize (IH (rec_set_status a FAILED (failed_add a s))). cbn zeta in IH.
     destruct IH as (A & B & C & D & E & F & G & H & K). splits; try (etransitivity; [eassumption|reflexivity]).
     + intros y. rewrite G. rewrite restarts_set_status. reflexivity.
-    + intros y. rewrite H. unfold failed_add. sp. rewrite In_sadd. cbn [In]. intuition.
+    + intros y. rewrite H. change (failed (rec_set_status a FAILED (failed_add a s))) with (sadd a (failed s)).
+      rewrite In_sadd. cbn [In]. intuition.
     + eapply st_frame_trans; [|eapply st_frame_weaken; [|exact K]].
       * eapply st_frame_weaken; [|apply (st_frame_trans _ _ (failed_add a s))].
         2:{ apply st_frame_same_recs. reflexivity. }
@@ -135,7 +136,8 @@ Proof.
   - specialize (IH (rec_set_status a CANCELLED (cancelled_add a s))). cbn zeta in IH.
     destruct IH as (A & B & C & D & E & F & G & H & K). splits; try (etransitivity; [eassumption|reflexivity]).
     + intros y. rewrite G. rewrite restarts_set_status. reflexivity.
-    + intros y. rewrite H. unfold cancelled_add. sp. rewrite In_sadd. cbn [In]. intuition.
+    + intros y. rewrite H. change (cancelled (rec_set_status a CANCELLED (cancelled_add a s))) with (sadd a (cancelled s)).
+      rewrite In_sadd. cbn [In]. intuition.
     + eapply st_frame_trans; [|eapply st_frame_weaken; [|exact K]].
       * eapply st_frame_weaken; [|apply (st_frame_trans _ _ (cancelled_add a s))].
         2:{ apply st_frame_same_recs. reflexivity. }
@@ -177,7 +179,9 @@ Proof.
         eapply same_view_trans; [apply (sv_set_next_job (S (next_job s3)))|].
         eapply same_view_trans; [apply sv_push_job|]. apply sv_emit.
       * eapply st_frame_trans; [exact F1|]. eapply st_frame_trans; [exact F2|]. eapply st_frame_trans; [exact F3'|].
-        intros y. left. cbn. rewrite status_push_job. reflexivity.
+        intros y. left.
+        transitivity (status (getrec (rec_push_job x (next_job s3) (set_next_job s3 (S (next_job s3)))) y)); [reflexivity|].
+        rewrite status_push_job. reflexivity.
     + specialize (IH (emit (ESubmit x (if restart then Restart else Main) (scheduled (attr g x)) None) s3)).
       destruct IH as (A & B). splits.
       * eapply same_view_trans; [exact V1|]. eapply same_view_trans; [exact V2|]. eapply same_view_trans; [exact V3|].
@@ -185,3 +189,238 @@ Proof.
       * eapply st_frame_trans; [exact F1|]. eapply st_frame_trans; [exact F2|]. eapply st_frame_trans; [exact F3'|].
         eapply st_frame_trans; [apply st_frame_same_recs; reflexivity|]. exact B.
 Qed.
+
+(** * Part B: [bfs_subtree] is closed under [children] (the fuel suffices) *)
+Lemma lv_bfs_visit_fold cs : forall q pth,
+  exists new, fold_left bfs_visit cs (q, pth) = (q ++ new, pth ++ new) /\
+    NoDup new /\ (forall z, In z new -> In z cs /\ ~ In z pth) /\ (forall z, In z cs -> In z pth \/ In z new).
+Proof.
+  induction cs as [|c cs IH]; intros q pth; cbn [fold_left].
+  - exists []. rewrite !app_nil_r. splits; [reflexivity | constructor | intros z [] | intros z []].
+  - unfold bfs_visit at 2. destruct (mem c pth) eqn:E.
+    + apply mem_In in E. destruct (IH q pth) as (new & A & B & C & D). exists new. splits; auto.
+      * intros z Hz. destruct (C z Hz). split; auto. right. auto.
+      * intros z [<-|Hz]; auto.
+    + apply mem_false in E. destruct (IH (q ++ [c]) (pth ++ [c])) as (new & A & B & C & D).
+      exists (c :: new). rewrite A, <- !app_assoc. cbn [app]. splits; auto.
+      * constructor; auto. intros Hc. destruct (C c Hc) as [_ K]. apply K. rewrite in_app_iff. right. left. reflexivity.
+      * intros z [<-|Hz]; [split; auto; left; reflexivity|]. destruct (C z Hz) as [K1 K2]. split; [right; auto|].
+        intros K. apply K2. rewrite in_app_iff. auto.
+      * intros z [<-|Hz]; [right; left; reflexivity|]. destruct (D z Hz) as [K|K]; [|right; right; auto].
+        rewrite in_app_iff in K. destruct K as [K|[<-|[]]]; auto. right. left. reflexivity.
+Qed.
+
+Lemma lv_NoDup_app {A} (a b : list A) : NoDup a -> NoDup b -> (forall z, In z b -> ~ In z a) -> NoDup (a ++ b).
+Proof.
+  induction a as [|x a IH]; intros Ha Hb D; cbn; auto.
+  inversion Ha; subst. constructor.
+  - rewrite in_app_iff. intros [K|K]; auto. apply (D x K). left. reflexivity.
+  - apply IH; auto. intros z Hz K. apply (D z Hz). right. exact K.
+Qed.
+
+Lemma lv_bfs_go_closed g (W : WF g) fuel : forall queue path done,
+  path = done ++ queue -> NoDup path -> (forall z, In z path -> z < length g) ->
+  (forall d, In d done -> incl (children (attr g d)) path) ->
+  S (length g) <= fuel + length done ->
+  forall y, In y (bfs_go g fuel queue path) -> incl (children (attr g y)) (bfs_go g fuel queue path).
+Proof.
+  induction fuel as [|f IH]; intros queue path done E ND B C F.
+  - exfalso. assert (length path <= length g).
+    { rewrite <- (seq_length (length g) 0). apply NoDup_incl_length; auto. intros z Hz. apply In_seq_lt. auto. }
+    rewrite E, app_length in H. cbn in F. lia.
+  - cbn [bfs_go]. destruct queue as [|r q].
+    + rewrite app_nil_r in E. subst done. intros y Hy. apply C. exact Hy.
+    + destruct (lv_bfs_visit_fold (children (attr g r)) q path) as (new & A & N1 & N2 & N3). rewrite A.
+      assert (Hr : r < length g) by (apply B; rewrite E, in_app_iff; right; left; reflexivity).
+      apply (IH (q ++ new) (path ++ new) (done ++ [r])).
+      * rewrite E, <- !app_assoc. reflexivity.
+      * apply lv_NoDup_app; auto. intros z Hz. apply N2. exact Hz.
+      * intros z Hz. rewrite in_app_iff in Hz. destruct Hz as [Hz|Hz]; auto.
+        destruct (N2 z Hz) as [K _]. eapply wf_child_lt; eauto.
+      * intros d Hd z Hz. rewrite in_app_iff in Hd. rewrite in_app_iff. destruct Hd as [Hd|[<-|[]]].
+        -- left. apply (C d Hd z Hz).
+        -- destruct (N3 z Hz); auto.
+      * rewrite app_length. cbn. lia.
+Qed.
+
+Lemma lv_bfs_out g x : length g <= x -> bfs_subtree g x = [x].
+Proof.
+  intros H. unfold bfs_subtree. cbn [bfs_go]. unfold attr. rewrite nth_overflow by exact H. cbn.
+  destruct (length g); reflexivity.
+Qed.
+
+Lemma lv_bfs_closed g x y : WF g -> In y (bfs_subtree g x) -> incl (children (attr g y)) (bfs_subtree g x).
+Proof.
+  intros W Hy. destruct (Nat.lt_ge_cases x (length g)) as [Hx|Hx].
+  - unfold bfs_subtree in *. apply (lv_bfs_go_closed g W (S (length g)) [x] [x] []); auto.
+    + constructor; [intros []|constructor].
+    + intros z [<-|[]]. exact Hx.
+    + intros d [].
+    + cbn. lia.
+  - rewrite lv_bfs_out in * by exact Hx. destruct Hy as [<-|[]].
+    unfold attr. rewrite nth_overflow by exact Hx. intros z [].
+Qed.
+
+(** children are different from their parent in a well-formed graph *)
+Lemma lv_child_neq g x ch : WF g -> In ch (children (attr g x)) -> ch <> x.
+Proof.
+  intros W H. destruct (Nat.lt_ge_cases x (length g)) as [Hx|Hx].
+  - pose proof (wf_child_par g W x ch Hx H) as P. pose proof (wf_child_lt g W x ch Hx H) as L.
+    pose proof (wf_par_lt g W ch x L P). lia.
+  - unfold attr in H. rewrite nth_overflow in H by exact Hx. destruct H.
+Qed.
+
+(** * Part C: the termination potential *)
+Definition resolvedb (s : st) (x : nat) : bool := mem x (completed s) || mem x (failed s) || mem x (cancelled s).
+(** remaining restart budget of a restartable step with a finite limit *)
+Definition budget (g : graph) (s : st) (x : nat) : nat :=
+  if has_restart (attr g x) && negb (rlimit (attr g x) =? 0) then rlimit (attr g x) - restarts (getrec s x) else 0.
+(** 3 while waiting, 2 while in the ready queue, 1 while in progress *)
+Definition stagew (s : st) (x : nat) : nat := if mem x (inprog s) then 1 else if mem x (ready s) then 2 else 3.
+(** weight of a node; [R] = nodes already collected for the failed/cancelled sweeps of the current poll *)
+Definition wtR (g : graph) (s : st) (R : list nat) (x : nat) : nat :=
+  if resolvedb s x || mem x R then 0 else stagew s x + budget g s x.
+Definition wt (g : graph) (s : st) (x : nat) : nat := wtR g s [] x.
+Fixpoint sumf (f : nat -> nat) (l : list nat) : nat := match l with [] => 0 | x :: l' => f x + sumf f l' end.
+Definition Phi (g : graph) (s : st) : nat := sumf (wt g s) (seq 0 (length g)).
+
+Lemma sumf_le f h l : (forall x, In x l -> f x <= h x) -> sumf f l <= sumf h l.
+Proof.
+  induction l as [|a l IH]; intros H; cbn; [lia|].
+  pose proof (H a (or_introl eq_refl)). assert (sumf f l <= sumf h l) by (apply IH; intros; apply H; right; auto). lia.
+Qed.
+Lemma sumf_lt f h l x : (forall y, In y l -> f y <= h y) -> In x l -> f x < h x -> sumf f l < sumf h l.
+Proof.
+  induction l as [|a l IH]; intros H Hx Hlt; [destruct Hx|]. cbn.
+  pose proof (H a (or_introl eq_refl)).
+  assert (sumf f l <= sumf h l) by (apply sumf_le; intros; apply H; right; auto).
+  destruct Hx as [->|Hx]; [lia|].
+  assert (sumf f l < sumf h l) by (apply IH; auto; intros; apply H; right; auto). lia.
+Qed.
+
+Definition resR (s : st) (R : list nat) (y : nat) : Prop :=
+  In y (completed s) \/ In y (failed s) \/ In y (cancelled s) \/ In y R.
+Definition tracked (s : st) (R : list nat) (y : nat) : Prop :=
+  resR s R y \/ In y (inprog s) \/ In y (ready s).
+
+Lemma resR_b s R y : resolvedb s y || mem y R = true <-> resR s R y.
+Proof. unfold resolvedb, resR. rewrite !orb_true_iff, !mem_In. tauto. Qed.
+Lemma resR_dec s R y : resR s R y \/ ~ resR s R y.
+Proof. rewrite <- resR_b. destruct (resolvedb s y || mem y R); [left|right]; congruence. Qed.
+
+Lemma wtR_res g s R y : resR s R y -> wtR g s R y = 0.
+Proof. intros H. apply resR_b in H. unfold wtR. rewrite H. reflexivity. Qed.
+Lemma wtR_unres g s R y : ~ resR s R y -> wtR g s R y = stagew s y + budget g s y.
+Proof. intros H. rewrite <- resR_b in H. unfold wtR. destruct (resolvedb s y || mem y R); congruence. Qed.
+
+Lemma stagew_inprog s y : In y (inprog s) -> stagew s y = 1.
+Proof. intros H. apply mem_In in H. unfold stagew. rewrite H. reflexivity. Qed.
+Lemma stagew_ready s y : ~ In y (inprog s) -> In y (ready s) -> stagew s y = 2.
+Proof. intros H1 H2. apply mem_false in H1. apply mem_In in H2. unfold stagew. rewrite H1, H2. reflexivity. Qed.
+Lemma stagew_ge1 s y : 1 <= stagew s y.
+Proof. unfold stagew. destruct (mem y (inprog s)), (mem y (ready s)); lia. Qed.
+Lemma stagew_le3 s y : stagew s y <= 3.
+Proof. unfold stagew. destruct (mem y (inprog s)), (mem y (ready s)); lia. Qed.
+Lemma stagew_ext s s' y : (In y (inprog s') <-> In y (inprog s)) -> (In y (ready s') <-> In y (ready s)) ->
+  stagew s' y = stagew s y.
+Proof.
+  intros H1 H2. unfold stagew.
+  assert (E1 : mem y (inprog s') = mem y (inprog s)).
+  { destruct (mem y (inprog s)) eqn:E; [apply mem_In; apply H1; apply mem_In; auto|].
+    apply mem_false. rewrite H1. apply mem_false. auto. }
+  assert (E2 : mem y (ready s') = mem y (ready s)).
+  { destruct (mem y (ready s)) eqn:E; [apply mem_In; apply H2; apply mem_In; auto|].
+    apply mem_false. rewrite H2. apply mem_false. auto. }
+  rewrite E1, E2. reflexivity.
+Qed.
+Lemma stagew_staged s s' y : (In y (inprog s') <-> In y (inprog s)) -> In y (ready s') -> stagew s' y <= stagew s y.
+Proof.
+  intros H1 H2. unfold stagew.
+  assert (E1 : mem y (inprog s') = mem y (inprog s)).
+  { destruct (mem y (inprog s)) eqn:E; [apply mem_In; apply H1; apply mem_In; auto|].
+    apply mem_false. rewrite H1. apply mem_false. auto. }
+  apply mem_In in H2. rewrite E1, H2. destruct (mem y (inprog s)), (mem y (ready s)); lia.
+Qed.
+Lemma budget_mono g s s' y : restarts (getrec s y) <= restarts (getrec s' y) -> budget g s' y <= budget g s y.
+Proof. intros H. unfold budget. destruct (has_restart (attr g y) && negb (rlimit (attr g y) =? 0)); lia. Qed.
+
+(** closure of the unsuccessful sets under [children] (within the current sweep sets) *)
+Definition FC (s : st) (R : list nat) (z : nat) : Prop := In z (failed s) \/ In z (cancelled s) \/ In z R.
+Definition clo (g : graph) (s : st) (R : list nat) : Prop :=
+  forall y, In y (failed s) \/ In y R \/ (canceled s = false /\ In y (cancelled s)) ->
+  forall ch, In ch (children (attr g y)) -> FC s R ch.
+(** a node that has left INITIALIZED is accounted for *)
+Definition acct (s : st) (R : list nat) : Prop := forall y, status (getrec s y) <> INITIALIZED -> tracked s R y.
+(** the dependency table only ever shrinks from the parents *)
+Definition depsok (g : graph) (s : st) : Prop := forall y, incl (getdeps s y) (parents (attr g y)).
+
+Definition xsame (x : nat) (s s' : st) : Prop :=
+  (In x (inprog s') <-> In x (inprog s)) /\ (In x (ready s') <-> In x (ready s)).
+Definition xstaged (x : nat) (s s' : st) : Prop :=
+  (In x (inprog s') <-> In x (inprog s)) /\ In x (ready s').
+
+(** Summary of one step of the poll that acts on node [x]; [hw] = the step may
+    move [x] from [inprog] back to the ready queue (hardware failure). *)
+Record astep (g : graph) (hw : bool) (x : nat) (s : st) (R : list nat) (s' : st) (R' : list nat) : Prop := {
+  as_res : forall y, resR s R y -> resR s' R' y;
+  as_failed : forall y, In y (failed s) -> In y (failed s');
+  as_inprog : forall y, y <> x -> (In y (inprog s') <-> In y (inprog s));
+  as_ready : forall y, y <> x -> (In y (ready s') <-> In y (ready s));
+  as_restarts : forall y, y <> x -> restarts (getrec s' y) = restarts (getrec s y);
+  as_restarts_x : restarts (getrec s x) <= restarts (getrec s' x);
+  as_status : st_frame (fun y => y = x \/ In y (failed s')) s s';
+  as_deps : forall y, incl (getdeps s' y) (getdeps s y);
+  as_canceled : canceled s' = canceled s;
+  as_clo : WF g -> clo g s R -> clo g s' R';
+  as_x : resR s' R' x \/ In x (inprog s') \/ xsame x s s' \/ xstaged x s s' \/ (hw = true /\ In x (ready s')) }.
+
+Definition wle (g : graph) (s : st) (R : list nat) (s' : st) (R' : list nat) : Prop :=
+  forall y, wtR g s' R' y <= wtR g s R y.
+
+Lemma wle_refl g s R : wle g s R s R.
+Proof. intros y. lia. Qed.
+Lemma wle_trans g s R s1 R1 s2 R2 : wle g s R s1 R1 -> wle g s1 R1 s2 R2 -> wle g s R s2 R2.
+Proof. intros H1 H2 y. specialize (H1 y). specialize (H2 y). lia. Qed.
+
+Lemma astep_wle g x s R s' R' : astep g false x s R s' R' -> wle g s R s' R'.
+Proof.
+  intros A y. destruct (resR_dec s' R' y) as [H'|H']; [rewrite wtR_res; auto; lia|].
+  assert (H : ~ resR s R y) by (intros K; apply H'; eapply as_res; eauto).
+  rewrite !wtR_unres; auto.
+  destruct (Nat.eq_dec y x) as [->|Hn].
+  - pose proof (budget_mono g s s' x (as_restarts_x _ _ _ _ _ _ _ A)) as B.
+    destruct (as_x _ _ _ _ _ _ _ A) as [K|[K|[K|[K|K]]]].
+    + contradiction.
+    + rewrite (stagew_inprog s' x K). pose proof (stagew_ge1 s x). lia.
+    + destruct K as [K1 K2]. rewrite (stagew_ext s s' x K1 K2). lia.
+    + destruct K as [K1 K2]. pose proof (stagew_staged s s' x K1 K2). lia.
+    + destruct K; discriminate.
+  - rewrite (stagew_ext s s' y (as_inprog _ _ _ _ _ _ _ A y Hn) (as_ready _ _ _ _ _ _ _ A y Hn)).
+    assert (budget g s' y = budget g s y); [|lia].
+    unfold budget. rewrite (as_restarts _ _ _ _ _ _ _ A y Hn). reflexivity.
+Qed.
+
+Lemma astep_tracked g hw x s R s' R' y : astep g hw x s R s' R' -> tracked s R y -> tracked s' R' y.
+Proof.
+  intros A T. destruct (Nat.eq_dec y x) as [->|Hn].
+  - destruct (as_x _ _ _ _ _ _ _ A) as [K|[K|[K|[K|K]]]].
+    + left. auto.
+    + right. left. auto.
+    + destruct K as [K1 K2]. destruct T as [T|[T|T]]; [left; eapply as_res; eauto | right; left; tauto | right; right; tauto].
+    + destruct K as [K1 K2]. right. right. auto.
+    + right. right. tauto.
+  - destruct T as [T|[T|T]]; [left; eapply as_res; eauto | right; left | right; right].
+    + apply (as_inprog _ _ _ _ _ _ _ A y Hn). auto.
+    + apply (as_ready _ _ _ _ _ _ _ A y Hn). auto.
+Qed.
+
+Lemma astep_acct g hw x s R s' R' : astep g hw x s R s' R' -> tracked s R x -> acct s R -> acct s' R'.
+Proof.
+  intros A Tx H y Hy. destruct (as_status _ _ _ _ _ _ _ A y) as [E|[[->|K] _]].
+  - rewrite E in Hy. eapply astep_tracked; eauto.
+  - eapply astep_tracked; eauto.
+  - left. right. left. exact K.
+Qed.
+
+Lemma astep_depsok g hw x s R s' R' : astep g hw x s R s' R' -> depsok g s -> depsok g s'.
+Proof. intros A D y z Hz. apply D. eapply as_deps; eauto. Qed.
